@@ -7,15 +7,23 @@ import FlacVerif.Model.Encode
 namespace FlacVerif
 
 /-- The invariants the integer tail of `quantize_parameters` enforces on a quantised LPC parameter
-set, whatever the floating-point computation before it produced. Entropy estimates are arbitrary. -/
+set, whatever the floating-point computation before it produced (at most `qlpc::MAX_ORDER = 24` coefficients:
+`lpc_order ≤ 24` in a verified configuration, and the quantiser returns at most `lpc_order` coefficients; with
+more, `estimated_qlpc` panics at the capacity of the warm-up vector). Entropy estimates are arbitrary. -/
 def OEvent.Ok : OEvent → Prop
   | .qlpc coefs shift precision =>
-      1 ≤ coefs.length ∧ coefs.length ≤ 32 ∧ 1 ≤ precision ∧ precision ≤ 15 ∧ 0 ≤ shift ∧ shift ≤ 15 ∧
+      1 ≤ coefs.length ∧ coefs.length ≤ maxLpcOrder ∧ 1 ≤ precision ∧ precision ≤ 15 ∧ 0 ≤ shift ∧ shift ≤ 15 ∧
       ∀ c ∈ coefs, SubFrame.inRange precision c = true
   | .est _ _ => True
 
 instance (e : OEvent) : Decidable e.Ok := by
   cases e <;> (unfold OEvent.Ok; infer_instance)
+
+/-- Every parameter set of an `OEvent.Ok` log has at most 24 coefficients (`maxLpcOrder`; also the limit
+`MAX_LPC_ORDER` of the repository's parser). -/
+theorem OEvent.ok_order_le (log : List OEvent) (hok : ∀ e ∈ log, e.Ok) :
+    ∀ c sh p, OEvent.qlpc c sh p ∈ log → c.length ≤ 24 :=
+  fun _ _ _ hm => (hok _ hm).2.1
 
 namespace Strict
 
@@ -192,8 +200,12 @@ theorem lpcStage_shape (cfg : SubCfg) (xs : List Int) (bps limit : Nat) (log log
       cases fits with
       | false => simp at hlc
       | true =>
-        simp only [if_true, Option.map_eq_some_iff, Prod.mk.injEq, Option.some.injEq] at hlc
-        obtain ⟨res, hres, rfl, _⟩ := hlc
+        simp only [if_true, Option.bind_eq_some_iff] at hlc
+        obtain ⟨res, hres, hlc⟩ := hlc
+        split at hlc
+        case isFalse => cases hlc
+        simp only [Option.some.injEq, Prod.mk.injEq] at hlc
+        obtain ⟨rfl, _⟩ := hlc
         unfold encodeResidual at hres
         simp only [Option.bind_eq_bind, Option.bind_eq_some_iff, Option.some.injEq] at hres
         obtain ⟨prc, hs, rfl⟩ := hres
@@ -250,8 +262,12 @@ theorem lpcStage_sub (cfg : SubCfg) (xs : List Int) (bps limit : Nat) (log log1 
         obtain ⟨_, rfl⟩ := hlc
         intro e he; exact List.mem_cons_of_mem _ he
       | true =>
-        simp only [if_true, Option.map_eq_some_iff, Prod.mk.injEq] at hlc
-        obtain ⟨_, _, _, rfl⟩ := hlc
+        simp only [if_true, Option.bind_eq_some_iff] at hlc
+        obtain ⟨_, _, hlc⟩ := hlc
+        split at hlc
+        case isFalse => cases hlc
+        simp only [Option.some.injEq, Prod.mk.injEq] at hlc
+        obtain ⟨_, rfl⟩ := hlc
         intro e he; exact List.mem_cons_of_mem _ he
     · cases hlc
   · simp only [Option.some.injEq, Prod.mk.injEq] at h
